@@ -93,6 +93,25 @@ correlation:
 }
 
 
+# correlation condition dicts: null-valued operators, several operators, operator + field, unknown keys
+CORR_CONDITIONS = {
+    "null_second": "{gte: 2, lte: }", "null_first": "{lte: ~, gte: 2}", "null_eq": "{eq: null, gt: 7}",
+    "two_ops": "{gte: 2, lte: 5}", "three_ops_nulls": "{gte: , lte: , eq: 4}", "only_null": "{gte: null}",
+    "all_null": "{lt: ~, gt: ~}", "op_field": "{gte: 2, field: User}", "null_op_field": "{neq: ~, lt: 3, field: User}",
+    "unknown": "{gt: 1, foo: 2, Bar: 3}", "unknown_null": "{gt: 1, lte: ~, zz: 3, aa: 4}", "bad_count": "{eq: x}",
+    "percentile": "{lt: 3, percentile: 50}", "empty": "{}", "field_only": "{field: User}",
+}
+for _k, _c in CORR_CONDITIONS.items():
+    CORRELATION["cond_" + _k] = RULES["simple"] + "---\n" + """title: Corr %s
+correlation:
+  type: %s
+  rules: [5013332f-8a70-4a04-bcc1-06a98a2cca2e]
+  group-by: [User]
+  timespan: 5m
+  condition: %s
+""" % (_k, "value_count" if "field" in _c else "event_count", _c)
+
+
 def filt(title, rules, det):
     return (f"title: {title}\nlogsource:\n  category: process_creation\n  product: windows\nfilter:\n  rules:\n"
             + "".join(f"    - {r}\n" for r in rules) + "".join("  " + l + "\n" for l in det.strip("\n").split("\n")))
@@ -312,7 +331,8 @@ def build_corpus(tier, rng):
     out.append(entry("separate-same-names", two, separate=[S["same1"], S["same2"], S["same1"]]))
     out.append(entry("separate-plus-stream", two + "---\n" + FILTERS["f_them"], [P["nested"]], separate=[S["star"], S["host"]]))
     for k, v in CORRELATION.items():
-        out.append(entry("corr-" + k, v, [P["one_to_many"]]))
+        if not k.startswith("cond_") or tier != "quick":
+            out.append(entry("corr-" + k, v, [P["one_to_many"]]))
         out.append(entry("corr-" + k + "-plain", v))
     for k, v in VALIDATORS.items():
         out.append(entry("validators-" + k, allrules, [], validators=v))
